@@ -3,7 +3,7 @@
 CONSTANTS Pods = {"p1"}  Tol = {}
   Starts = {"unpersisted"}
   VaOwners = {"-"}  TGPs <- BoolF  Instants <- BoolF
-  MaxFaults = 0  MaxRestarts = 1  MaxLen = 1000
+  MaxFaults = 0  MaxRestarts = 1  MaxLen = 1000  MaxSpont = 99
   Atomic = TRUE  FinalizeMode = "cache"  Weak = ""
 SPECIFICATION Spec
 VIEW view
